@@ -193,6 +193,7 @@ func suiteRange(r *Rng, n int, thorough bool, o *Out) {
 		before := colIDs(col)
 		op := lst("range", "run", lst(append([]string{"tags"}, tags...)...), lst(views...), hxs(ids), fsx, hxs(rules), fmt.Sprint(psize), fmt.Sprint(pnum))
 		var page jsonapi.Collection
+		asked := append([]string{}, rules...) // the rules as the caller wrote them
 		p, _ := guard(func() { page = jsonapi.Range(col, ids, flt, rules, psize, pnum) })
 		obs := "panic"
 		pv := "ok"
@@ -214,7 +215,11 @@ func suiteRange(r *Rng, n int, thorough bool, o *Out) {
 			seen := map[string]int{}
 			total := 0
 			var all jsonapi.Collection
-			guard(func() { all = jsonapi.Range(col, ids, flt, rules, 1<<20, 0) })
+			// the whole selection, asked with rules of its own; the pages are asked the way a
+			// caller walks them: the same rules slice every time
+			fresh := append([]string{}, asked...)
+			guard(func() { all = jsonapi.Range(col, ids, flt, fresh, 1<<20, 0) })
+			var walked []string
 			for k := uint(0); k < 40; k++ {
 				var pg jsonapi.Collection
 				guard(func() { pg = jsonapi.Range(col, ids, flt, rules, psize, k) })
@@ -223,12 +228,15 @@ func suiteRange(r *Rng, n int, thorough bool, o *Out) {
 				}
 				for i := 0; i < pg.Len(); i++ {
 					seen[pg.At(i).Get("id").(string)]++
+					walked = append(walked, pg.At(i).Get("id").(string))
 					total++
 				}
 			}
 			if all != nil {
 				if total != all.Len() {
 					pv = fmt.Sprintf("FAIL:pages hold %d resources, %d match", total, all.Len())
+				} else if idAt >= 0 && strings.Join(walked, "\x00") != colIDs(all) {
+					pv = "FAIL:the pages, one after the other, are not the matching resources in the order of the rules"
 				}
 				for _, cnt := range seen {
 					if cnt > 1 && idAt >= 0 {
